@@ -83,6 +83,11 @@ func FromReader(reader io.Reader) (dialogue *Dialogue, err error) {
 	if len(errorListener.errs) != 0 {
 		return nil, fmt.Errorf("failed to parse dialogue: %w", errors.Join(errorListener.errs...))
 	}
+	// the start rule of the grammar does not end with EOF: the parser stops, without any complaint, in front of the
+	// first thing that cannot start another node (eg. a body that no header precedes)
+	if leftover := stream.LT(1); leftover.GetTokenType() != antlr.TokenEOF {
+		return nil, fmt.Errorf("failed to parse dialogue: line %d:%d unexpected content after the last node", leftover.GetLine(), leftover.GetColumn())
+	}
 
 	antlr.ParseTreeWalkerDefault.Walk(listener, parseTree)
 
